@@ -1,5 +1,6 @@
 import PbVerif.Driver.Util
 import PbVerif.Model.Desc
+import PbVerif.Driver.DescWire
 /- `pbmodel_desc`: line-protocol driver of the descriptor model (C34, C35, C37, C38).
 
   resolve <edition> <chain>                     spec-level resolved FeatureSet + Go view        (C38)
@@ -59,7 +60,7 @@ def featStep : List String → Option String
       let f := fieldFeatures (resolveGo g c) fov packed
       let card := cardinalityOf label f ext
       let kind := kindOf type f ext mapish
-      pure s!"card={card} kind={kind} presence={b01 (hasPresence card ext f hasMsg inOneof)} packed={b01 (isPacked card kind f)} utf8={b01 (enforceUTF8 f)}"
+      pure s!"card={card} kind={kind} presence={b01 (hasPresence card ext f hasMsg inOneof)} packed={b01 (isPacked card kind f)} utf8={b01 (runtimeEnforceUTF8 ed ext f)}"
     | none => pure "panic"
   | ["enum", ed, chain, eov] => do
     let ed ← ed.toNat?
@@ -73,6 +74,9 @@ def featStep : List String → Option String
   | _ => none
 
 def descStep (ws : List String) : String :=
+  match ws with
+  | "newfile" :: rest => DescWire.newfileStep rest
+  | _ =>
   match featStep ws with
   | some r => r
   | none => "bad-op"
